@@ -539,7 +539,26 @@ let explicit_mux id (bops : bop list) (script : sink_ev list) (ops : string list
        go xs ops);
   print_endline "end"
 
+(* vp9enc: key-frame headers of Spec/Vp9Syntax.v -> frame bytes
+   line: vp9 <id> profile show err twelve cs range ssx ssy w-1 h-1 rw|~ rh|~ rest-hex *)
+let vp9enc_mode () =
+  (try while true do
+    let line = input_line stdin in
+    match words line with
+    | ["vp9"; id; pr; sh; er; tw; cs; rg; sx; sy; w; h; rw; rh; rest] ->
+        let hd = { vk_profile = n_of_hex pr; vk_show_frame = b01 sh; vk_error_resilient = b01 er; vk_twelve_bit = b01 tw;
+                   vk_color_space = n_of_hex cs; vk_color_range = b01 rg; vk_subsampling_x = b01 sx; vk_subsampling_y = b01 sy;
+                   vk_width_minus_1 = n_of_hex w; vk_height_minus_1 = n_of_hex h;
+                   vk_render_size = (if rw = "~" then None else Some (n_of_hex rw, n_of_hex rh)) } in
+        let restbits = List.concat_map (fun b -> f (nat_of_int 8) b) (bytes_of_hex rest) in
+        Printf.printf "vp9 %s %s %s %s\n" id (s01 (valid_vp9_key_hdr hd)) (hex_of_bytes (vp9_key_frame hd restbits))
+          (hex_of_n (vp9_bit_depth_of hd))
+    | [] -> ()
+    | _ -> failwith ("bad vp9 line: " ^ line)
+  done with End_of_file -> ())
+
 let () =
+  if Array.length Sys.argv > 1 && Sys.argv.(1) = "vp9enc" then (vp9enc_mode (); exit 0);
   if Array.length Sys.argv > 1 && Sys.argv.(1) = "av1enc" then (av1enc_mode (); exit 0);
   if Array.length Sys.argv > 1 && Sys.argv.(1) = "pairs" then (pairs_mode (); exit 0);
   if Array.length Sys.argv > 1 && Sys.argv.(1) = "cli" then (cli_mode (); exit 0);
